@@ -219,6 +219,10 @@ side_by_side_tiff_start(struct Storage* self_) noexcept
             state = self->tiff->set(self->tiff, &props);
             CHECK(state == DeviceState_Armed);
             state = self->tiff->start(self->tiff);
+            // The inner writer is driven directly, not through the HAL, so
+            // nobody else records its state. It only terminates the directory
+            // chain and closes its file in stop() when it knows it is running.
+            self->tiff->state = state;
             CHECK(state == DeviceState_Running);
         }
 
